@@ -66,6 +66,11 @@ class Ref:
 _uniq = [0]
 
 
+def has_macro(stmts):
+    return any(st[0] == "macro" or (st[0] in ("each", "if") and has_macro(st[2])) for st in stmts)
+
+
+
 def render(stmts):
     lines = []
     for st in stmts:
@@ -153,6 +158,8 @@ def run(tier, seed):
                     k = rng.choice(["each", "if", "macro"] if depth == 0 else ["each", "if"])
                     n = rng.choice([0, 1, 1, 2]) if k != "if" else rng.choice([0, 1, 1])
                     tail = stmts[1:]
+                    if has_macro(tail):
+                        n = min(n, 1)          # a body that defines a macro is expanded at most once
                     stmts[1:] = [(k, n, tail)]
                     feats[k + "_around_include"] = feats.get(k + "_around_include", 0) + 1
                 elif r < 0.45:
